@@ -21,6 +21,12 @@ m = {
          "kind_free_text": "Lean 4 model (lean/Matreex/Model), code regenerated from /repo/src by translate/ (lean/Matreex/Gen), property theorems (lean/Matreex/Props), axiom audit"},
         {"name": "correspondence", "path": "harness/", "serves_properties": sorted(PROPS),
          "kind_free_text": "Rust harness running the real crate + compiled Lean driver running the model on the same operation lines; diff; per-property oracle on the implementation"},
+        {"name": "translators", "path": "translate/", "serves_properties": sorted(PROPS),
+         "kind_free_text": "t2.py: pure integer functions of /repo/src -> lean/Matreex/Gen/Core.lean; t1.py: tables (allocation order, scalar / elementwise / negation / parallel / conformability-guard forms, macro arms, auto-trait impls) -> lean/Matreex/Gen/*.lean; run first in every check"},
+        {"name": "compile-probes", "path": "probes/", "serves_properties": ["C17"],
+         "kind_free_text": "68 generated client programs type-checked with cargo check against /repo; accept / reject verdict and diagnostic code compared with the Lean auto-trait model"},
+        {"name": "feature-configurations", "path": "fmtcfg/", "serves_properties": ["C20"],
+         "kind_free_text": "the formatting operations of a C20 run recomputed against /repo built with no default features and with its default features; text compared with the full-feature harness"},
     ],
     "checks": [],
     "not_applicable": [{"property_id": k, "reason": v} for k, v in sorted(NOT_APPLICABLE.items()) if k not in PROPS],
@@ -35,7 +41,7 @@ for pid in sorted(PROPS):
         "evidence_file": f"evidence/{pid}.json",
         "replay_cmd_template": f"./check.py {pid} --replay {{path}}",
         "engine": "lean-proof",
-        "level_claimed": {"category": "proof", "text": spec.get("level_text", LEVEL_TEXT), "design_ref": spec.get("design_ref", "DESIGN.md section 6, " + pid)},
+        "level_claimed": {"category": "proof", "text": spec.get("level_text", LEVEL_TEXT), "design_ref": spec.get("design_ref", "DESIGN.md sections 0.2 (as built) and 6 (plan), " + pid)},
         "level_note": "; ".join(spec.get("trusted", []) + spec.get("assumptions", [])) or "see DESIGN.md section 5",
         "technique": spec.get("technique", "Lean 4 theorems over a model tied to /repo by translation (T2) and differential correspondence"),
     })
